@@ -22,9 +22,10 @@ _file_ids = itertools.count()
 class Built:
     """A real Ovld built from a program."""
 
-    def __init__(self, world, defs, name="f", hook=True):
+    def __init__(self, world, defs, name="f", hook=True, utab=None):
         self.w = world
-        self.dec = Decoder(world)
+        self.predlog = []
+        self.dec = Decoder(world, utab=utab, predlog=self.predlog)
         self.log = []
         self.ov = ovld.Ovld(name=name)
         self.fns = {}       # method id -> original function
@@ -71,6 +72,13 @@ class Built:
                 tail = f"return call_next({args})"
             else:
                 tail = f"return ('ret', {mid})"
+        elif body == "nextv":
+            npos = len(d["pos"])
+            if d["npos_req"] == npos and not d.get("kw"):
+                args = ", ".join(f"ALT(a{i})" for i in range(npos))
+                tail = f"return call_next({args})"
+            else:
+                tail = f"return ('ret', {mid})"
         elif body == "rec":
             npos = len(d["pos"])
             if d["npos_req"] == npos and not d.get("kw"):
@@ -84,7 +92,7 @@ class Built:
         src = f"def m{mid}({', '.join(params)}):\n    {rec}\n    {tail}\n"
         fname = f"<verif-prog-{next(_file_ids)}>"
         linecache.cache[fname] = (len(src), None, src.splitlines(True), fname)
-        glb = {"LOG": self.log, "RECUR": [], "DEFAULT": DEFAULT, "call_next": call_next, "recurse": recurse, "__name__": "verif_prog"}
+        glb = {"LOG": self.log, "RECUR": [], "ALT": alt_value, "DEFAULT": DEFAULT, "call_next": call_next, "recurse": recurse, "__name__": "verif_prog"}
         exec(compile(src, fname, "exec"), glb)
         fn = glb[f"m{mid}"]
         fn.__annotations__ = anns
@@ -140,6 +148,7 @@ class Built:
         kw = kw or {}
         self.install_hook()
         del self.log[:]
+        del self.predlog[:]
         try:
             r = self.ov(*pos, **kw)
             out = ["run", r[1]] if isinstance(r, tuple) and r and r[0] == "ret" else ["value", repr(r)]
@@ -169,6 +178,17 @@ class Built:
             return ["exc", type(e).__name__]
         finally:
             omro._verif_reorder = None
+
+
+def alt_value(v):
+    """another value of the same class: -v for ints, reversed for strings and tuples"""
+    if isinstance(v, bool):
+        return v
+    if isinstance(v, int):
+        return -v
+    if isinstance(v, (str, tuple)):
+        return v[::-1]
+    return v
 
 
 class _Default:
